@@ -4,6 +4,7 @@
 -/
 import PonyVerif.Model.Inherit
 import PonyVerif.Model.JoinDiscr
+import PonyVerif.Model.SeedLoad
 set_option linter.unusedSimpArgs false
 set_option linter.unusedVariables false
 namespace PonyVerif.Props.C27
@@ -465,5 +466,58 @@ theorem C27_joined_right_pk_only_unfiltered :
 example : (joinedRun .m2m true [true, false, false]) = { joined := true, optimized := false, entityJoins := 1, filters := 1, m2mJoins := 1 } := by decide
 
 end JoinDiscr
+
+/-! ### seeds: an object reached through a base-class reference is loaded before it is handed out (guards regenerated from core.py) -/
+
+section SeedLoad
+open PonyVerif.Model.SeedLoad PonyVerif.Gen.LoadGuards
+
+/-- **No seed of a polymorphic entity escapes.**  At each of the four sites that hand out objects which may be known by primary key only
+    (to-one attribute, many-to-many collection, tuple query result, identity-map lookup), in the situation where the site hands out an
+    entity instance in a live session: if the entity has subclasses the object is loaded first -/
+theorem C27_no_seed_escapes (s : Site) (c : LoadCtx) (hn : normal s c = true) (hs : c.hasSub = true) : stillSeed s c = false := by
+  rcases c with ⟨notNone, isRef, hasSub, alive, sessionAlive, isSeed, manyToMany, notCached, exprIsEntity, singleColumn, isEntity, hasDiscr⟩
+  simp only at hs
+  subst hs
+  cases s <;>
+    simp [normal, stillSeed, loadGuard, attrGetLoadGuard, setCopyLoadGuard, queryTupleLoadGuard, findInCacheLoadGuard] at hn ⊢ <;>
+    simp [hn]
+
+/-- an entity without subclasses: the stored class of an object reached through it IS that entity -/
+theorem C27_no_subclasses_exact (h : Hier) (hw : h.wf) (cls r : Nat) (hr : r < h.n) (hs : IsSub h r cls) (he : h.subclasses cls = []) : r = cls := by
+  rcases hs with hs | hs
+  · exact hs
+  · have := (C27_subclasses h hw cls r).2 ⟨hr, hs⟩
+    rw [he] at this; simp at this
+
+/-- **Every hand-out has the stored class.**  For every hierarchy, site and situation: an object whose stored class is `r`, known in the
+    identity map with the declared class `cls ⊇ r`, is handed out with class exactly `r` — because it had been built from its row, or it is
+    loaded now and refined (C27_refine_to_stored), or `cls` has no subclasses at all -/
+theorem C27_handed_out_exact (h : Hier) (hw : h.wf) (s : Site) (c : LoadCtx) (cls r : Nat) (hr : r < h.n) (hsub : IsSub h r cls)
+    (hn : normal s c = true) (hc : c.hasSub = !(h.subclasses cls).isEmpty) :
+    classAfter h s c cls r = .ok r := by
+  unfold classAfter
+  by_cases hs : c.hasSub = true
+  · rw [C27_no_seed_escapes s c hn hs]
+    simp only [Bool.false_eq_true, if_false]
+    split
+    · exact C27_refine_to_stored h hw cls r true hsub
+    · rfl
+  · have he : h.subclasses cls = [] := by
+      have : c.hasSub = false := by simpa using hs
+      rw [this] at hc
+      simpa using hc.symm
+    have hrc := C27_no_subclasses_exact h hw cls r hr hsub he
+    subst hrc
+    split
+    · rfl
+    · split
+      · simp [Hier.refine]
+      · rfl
+
+example : normal .attrGet ⟨true, true, true, true, true, true, false, false, false, false, false, true⟩ = true ∧
+    stillSeed .attrGet ⟨true, true, true, true, true, true, false, false, false, false, false, true⟩ = false := by decide
+
+end SeedLoad
 
 end PonyVerif.Props.C27
